@@ -66,6 +66,10 @@ CHECKS["C09"] = dict(level="exploration", ref="DESIGN.md §5 C09",
    technique="three-way differential execution of Hypothesis-generated container histories (h5py.File vs IH5Record vs IH5MFRecord) with generated patch boundaries and reopen points; per-step success parity and full user-view comparison (data, attributes, metadata JSON, schemas, query result sets); no reference model decides",
    text="Pure differential generated search: a shared misconception of harness and code cannot hide a divergence because no model is consulted. Bounded history length and a fixed query battery; sampling.",
    note=TB + "; h5py.File behaviour is taken as given (one libhdf5 2.0 copy bug is avoided by construction)")
+CHECKS["C08"] = dict(level="exploration", ref="DESIGN.md §5 C08",
+   technique="exhaustive matrix of path-taking protocol members (introspected from util/types.py) x reserved path shapes x receivers x states x drivers with raise + raw-tree-unchanged oracle; generated container histories with listing probes (keys/len/iter/values/items/get/in/visit/visititems) against the reference model after every step; enumeration of non-protocol attributes",
+   text="The reserved-path matrix and the attribute enumeration are complete for their stated dimensions; the listing probes are a generated search. A harness error is raised if the protocol gains a member the matrix does not classify.",
+   note=TB)
 NOT_YET = {}
 def main():
     props = [json.loads(l) for l in open(os.path.join(HERE, "properties.jsonl"))]
